@@ -38,7 +38,7 @@ pub fn parse<'a>(token: &'a tokenizer::Token) -> Option<Element<'a>> {
                     |(mut pairs, mut state), (pos, current_char)| {
                         match state {
                             State::NameBegin => match current_char {
-                                ' ' | '\n' => {}
+                                ' ' | '\n' | '\t' | '\r' => {}
                                 '=' => state = State::ParseError,
                                 '"' => state = State::ParseError,
                                 '\'' => state = State::ParseError,
@@ -47,7 +47,7 @@ pub fn parse<'a>(token: &'a tokenizer::Token) -> Option<Element<'a>> {
                                 }
                             },
                             State::Name(start) => match current_char {
-                                ' ' | '\n' => {
+                                ' ' | '\n' | '\t' | '\r' => {
                                     pairs.push((&target[start..pos], None));
                                     state = State::NameEnd;
                                 }
@@ -58,14 +58,14 @@ pub fn parse<'a>(token: &'a tokenizer::Token) -> Option<Element<'a>> {
                                 _ => {}
                             },
                             State::NameEnd => match current_char {
-                                ' ' | '\n' => {}
+                                ' ' | '\n' | '\t' | '\r' => {}
                                 '=' => state = State::ValueBegin,
                                 _ => {
                                     state = State::Name(pos);
                                 }
                             },
                             State::ValueBegin => match current_char {
-                                ' ' | '\n' => {}
+                                ' ' | '\n' | '\t' | '\r' => {}
                                 '"' => {
                                     state = State::ValueWithDoubleQuote(pos + 1);
                                 }
@@ -87,7 +87,7 @@ pub fn parse<'a>(token: &'a tokenizer::Token) -> Option<Element<'a>> {
                                 }
                             }
                             State::ValueWithNoQuote => {
-                                if current_char == ' ' {
+                                if matches!(current_char, ' ' | '\n' | '\t' | '\r') {
                                     state = State::NameBegin
                                 }
                             }
